@@ -159,13 +159,13 @@ func hasPUA(s string) bool {
 }
 
 func bytesToSym(s string) string {
-	if utf8.ValidString(s) {
+	if utf8.ValidString(s) && !strings.ContainsRune(s, 0) {
 		return s
 	}
 	var b strings.Builder
 	for i := 0; i < len(s); {
 		r, w := utf8.DecodeRuneInString(s[i:])
-		if r == utf8.RuneError && w == 1 {
+		if (r == utf8.RuneError && w == 1) || r == 0 {
 			b.WriteRune(rune(0xE000 + int(s[i])))
 		} else {
 			b.WriteRune(r)
